@@ -743,6 +743,8 @@ def corpus(ctx: Ctx, tmp: str) -> None:
 
 # =============================================================================================
 def run(ctx: Ctx, driver_ok: bool) -> None:
+    import warnings
+    warnings.simplefilter('ignore')
     drv = Driver('drv_c09') if driver_ok else None
     tmp = tempfile.mkdtemp(prefix='c09-')
     batch = Batch()
